@@ -116,8 +116,13 @@ class PowerLawIMF:
     @property
     def Mtot(self):
         '''Total mass of system under this IMF (assuming `self.N0` stars).'''
-        from scipy.integrate import quad
-        return quad(self.M, self.mb[0], self.mb[-1])[0]
+        # Sum of the (exact) second moments of each power law component. A
+        # single numerical quadrature over the full mass range misses the
+        # kinks at the break masses and loses the low-mass end entirely when
+        # the range spans several decades.
+        return np.sum(
+            self.N0 * self._A_comps * Pk(self.a, 2, self.mb[:-1], self.mb[1:])
+        )
 
     @classmethod
     def from_M0(cls, m_break, a, M0, *, ext='zeros'):
